@@ -13,6 +13,7 @@ import (
 	"github.com/fluhus/biostuff/sequtil"
 	"github.com/fluhus/biostuff/trie"
 	"pgregory.net/rapid"
+	"verif/harness/internal/fault"
 	"verif/harness/internal/gen"
 )
 
@@ -29,6 +30,11 @@ type C18Case struct {
 	Words []gen.B      `json:"words,omitempty"`
 	Seq   gen.B        `json:"seq,omitempty"`
 	K     int          `json:"k,omitempty"`
+	// Fault > 0 (Reader iterators only): the stream fails with a non-EOF error after
+	// (Fault-1) % (len+1) bytes, once, then reports EOF; FaultWithData delivers the error together
+	// with the last bytes.
+	Fault         int  `json:"fault,omitempty"`
+	FaultWithData bool `json:"fault_with_data,omitempty"`
 }
 
 var c18Iters = []string{"fasta", "fastq", "sam", "samh", "bed", "newick", "fasta-file", "fastq-file", "sam-file", "samh-file", "bed-file", "newick-file",
@@ -70,6 +76,10 @@ func genC18(t *rapid.T, thorough bool) C18Case {
 			c.Text = StreamText{Raw: text}
 		} else {
 			c.Text = StreamText{Lines: genWellFormedLines(t, format, rapid.IntRange(1, 8).Draw(t, "nrecs"))}
+		}
+		if format == c.Iter && rapid.IntRange(0, 3).Draw(t, "faulty") == 1 {
+			c.Fault = rapid.IntRange(1, 2000).Draw(t, "fault")
+			c.FaultWithData = rapid.Bool().Draw(t, "faultWithData")
 		}
 	}
 	return c
@@ -135,6 +145,12 @@ func iterRunner(c C18Case) (run func(cb func(Item) bool), unordered bool, errorI
 		path := writeTemp(text, "."+format)
 		return codec.FileSeq(path), false, codec.ErrorIsLast, true
 	}
+	if c.Fault > 0 {
+		k := (c.Fault - 1) % (len(text) + 1)
+		return func(cb func(Item) bool) {
+			codec.Reader(&fault.FailAfter{Data: text, K: k, WithData: c.FaultWithData}, cb)
+		}, false, codec.ErrorIsLast, true
+	}
 	return func(cb func(Item) bool) { codec.Reader(bytes.NewReader(text), cb) }, false, codec.ErrorIsLast, true
 }
 
@@ -164,6 +180,7 @@ func checkC18(c C18Case, o *Obs) error {
 		}
 	}
 	o.ClassIf(hasErr, "has error item")
+	o.ClassIf(c.Fault > 0, "failing stream")
 	o.ClassIf(N == 0, "no items")
 	fullSet := map[string]int{}
 	for _, it := range full {
@@ -241,6 +258,20 @@ func exhaustiveC18(thorough bool, emit func(C18Case) bool) {
 		for _, in := range ins {
 			if !emit(C18Case{Iter: f, Text: StreamText{Raw: gen.B(in)}}) || !emit(C18Case{Iter: f + "-file", Text: StreamText{Raw: gen.B(in)}}) {
 				return
+			}
+		}
+	}
+	faultInputs := map[string]string{
+		"fasta": ">a\nACGT\nAC\n>b\nGG\n", "fastq": "@a\nAC\n+\nII\n@b\nG\n+\nJ\n", "sam": "@h\nq\t0\tr\t1\t2\tM\t=\t4\t5\tA\tI\nx\n",
+		"samh": "@h\nq\t0\tr\t1\t2\tM\t=\t4\t5\tA\tI\n", "bed": "c\t1\t2\n#k\nd\t3\t4\n", "newick": "(a,b)c;\n(d)e;",
+	}
+	for _, f := range codecNames {
+		in := faultInputs[f]
+		for k := 0; k <= len(in); k++ {
+			for _, wd := range []bool{false, true} {
+				if !emit(C18Case{Iter: f, Text: StreamText{Raw: gen.B(in)}, Fault: k + 1, FaultWithData: wd}) {
+					return
+				}
 			}
 		}
 	}
